@@ -19,10 +19,13 @@ def c14n(b):
     return etree.tostring(etree.fromstring(b), method='c14n')
 
 
-def one(ctx, data, meta, html, tmpdir, rng, edits=True):
+def one(ctx, data, meta, html, tmpdir, rng, edits=True, reads=None):
     from docx2python import docx2python
     ctx.evaluations += 1; good = True
-    case = case_payload(data, html=html, dup=True)
+    # what was read on the object before saving must not matter: nothing was edited
+    READS = ['core_properties', 'comments', 'text', 'images', 'header', 'document_pars', 'footnotes_runs']
+    if reads is None: reads = [a for a in READS if rng.random() < 0.5] if rng.random() < 0.75 else []
+    case = case_payload(data, html=html, dup=True, reads_before_save=reads)
     zin = zipfile.ZipFile(io.BytesIO(data)); innames = zin.namelist()
     cps = {p for t, p in src.content_parts(data) if t != 'comments'}
     overw = cps | {n for n in innames if n.endswith('.rels')}
@@ -32,7 +35,11 @@ def one(ctx, data, meta, html, tmpdir, rng, edits=True):
         warnings.simplefilter('ignore')
         try:
             with docx2python(buf, html=html) as d:
+                for a in reads:
+                    try: getattr(d, a)
+                    except Exception: pass
                 d.docx_reader.save(out1)
+            ctx.count('reads before save: %d' % len(reads))
         except Exception as e:
             ctx.fail('save raised', case, type(e).__name__, features=['raises:' + type(e).__name__]); return False
     if buf.getvalue() != data: ctx.fail('saving modified the input buffer', case, None); good = False
@@ -165,6 +172,6 @@ def run(ctx):
 def replay(ctx, rep):
     c = rep.get('case') or (rep.get('first_difference') or {}).get('case')
     tmpdir = tempfile.mkdtemp(prefix='d2pv-c16-')
-    try: one(ctx, case_data(c), None, c.get('html', False), tmpdir, random.Random(1))
+    try: one(ctx, case_data(c), None, c.get('html', False), tmpdir, random.Random(1), reads=c.get('reads_before_save'))
     finally: shutil.rmtree(tmpdir, ignore_errors=True)
     ctx.rule = 'replay of one stored case'
